@@ -653,7 +653,7 @@ func main() {
 	r := cv.NewRand(12)
 	nSig, nCall, nPool, nMal, nEv, nErr := 150, 110, 40, 12, 20, 36
 	if thorough {
-		nSig, nCall, nPool, nMal, nEv, nErr = 3000, 2500, 40, 200, 600, 600
+		nSig, nCall, nPool, nMal, nEv, nErr = 6000, 6000, 40, 400, 1500, 1500
 	}
 	g.events(r, nEv, thorough)
 	g.signatures(r, nSig)
